@@ -378,6 +378,7 @@ def build(ctx):
 
     cartesian_obligations(ctx, I, SOcls, Rr, tv, xv)
     string_obligations(ctx, I, SOcls)
+    engine_guard(ctx, I, dec, enc)
     bounded(ctx)
 
 
@@ -469,6 +470,21 @@ def spec_symm_str(R, k):
                 v += ("-" if R[i][j] < 0 else "+") + "xyz"[j]
         rows.append(v)
     return ",".join(rows)
+
+
+def engine_guard(ctx, I, dec, enc):
+    """CPython cross-check of the symbolic executor on the functions under contract (concrete arguments, one path, same value)."""
+    from pyvc.crosscheck import crosscheck
+    so = _native()
+    rng = np.random.default_rng(1111)
+    codes = [16484, 0, NCODES - 1, 4242, 19682, 19683] + [int(x) for x in rng.integers(0, NCODES, 40)]
+    crosscheck(ctx, I, dec, so.decode_symm_int, [(c_,) for c_ in codes])
+    pairs = [so.decode_symm_int(c_) for c_ in codes[:30]]
+    crosscheck(ctx, I, enc, so.encode_symm_int, [(r_, t_) for r_, t_ in pairs], to_engine=lambda a: (farr(a[0].tolist()), farr(a[1].tolist())))
+    crosscheck(ctx, I, ctx.fn(MOD, "encode_symm_str"), so.encode_symm_str, [(r_, t_) for r_, t_ in pairs[:20]],
+               to_engine=lambda a: (farr(a[0].tolist()), farr(a[1].tolist())))
+    strings = [so.encode_symm_str(r_, t_) for r_, t_ in pairs[:20]] + ["x,y,z", "-x+1/2, y, -z+1/4", "x-y,x,z+1/6", "0.5+x,y,z", "X,Y,Z"]
+    crosscheck(ctx, I, ctx.fn(MOD, "decode_symm_str"), so.decode_symm_str, [(s_,) for s_ in strings])
 
 
 def string_obligations(ctx, I, SOcls):
